@@ -216,8 +216,13 @@ class SymArray:
             if v == 1:
                 continue
             if v is None and not sym.quick_prove(sym.ctx().hyps(), n.e != 1, 500):
-                # a symbolic axis that may be 1: numpy would drop it only in that case; keep it and say so
-                sym.ctx().ghost.setdefault("squeeze_assumes_not_one", []).append(n)
+                if getattr(sym.ctx(), "squeeze_forks", False):
+                    # contracts about array ranks (writer layout): the path forks on "this axis has length one" - numpy drops it exactly then
+                    if bool(SB(n.e == 1)):
+                        continue
+                else:
+                    # a symbolic axis that may be 1: numpy would drop it only in that case; keep it and say so
+                    sym.ctx().ghost.setdefault("squeeze_assumes_not_one", []).append(n)
             keep.append(d)
         if len(keep) == self.ndim:
             return self
